@@ -10,6 +10,7 @@ import (
 	"encoding/hex"
 	"encoding/json"
 	"fmt"
+	"runtime"
 	"strconv"
 	"strings"
 
@@ -245,6 +246,9 @@ func exec(c proto.Case, o *proto.Out) []string {
 }
 
 func main() {
+	// the harness is sequential; one P also makes the concurrent `multi mode=conc` calls share one
+	// sync.Pool slot (set once: no stop-the-world per op)
+	runtime.GOMAXPROCS(1)
 	zerolog.SetGlobalLevel(zerolog.Disabled)
 	proto.Main(proto.Harness{Rule: rule, Gen: gen, Exec: exec})
 }
